@@ -14,7 +14,7 @@ from lib.engine import R, V, enum_part, hyp_part
 
 ID = 'C05'
 RULE = ('every (culture, entity type, prefix|suffix, spelling) entry of the tables wired into the configuration of each registered unit model '
-        '(currency, dimension, temperature, age x en, es, es-mx, fr, pt, nl, zh, de, it, ja where registered), each with an integer numeral '
+        '(currency, dimension, temperature, age x en, es, es-mx, fr, pt, nl, zh, de, it, ja where registered), each with an integer numeral and, when the spelling itself contains a digit (m2, km3), with that digit as the numeral '
         '(quick) and additionally a decimal numeral and a carrier sentence (thorough); compound currency: every main/fraction pair reachable '
         'through BaseCurrency.CurrencyFractionMapping for en-us with Hypothesis-drawn amounts; every table entry is non-trivial and counted '
         'once; distinct = (culture, type, kind, spelling, numeral, carrier)')
@@ -111,7 +111,8 @@ def _table_entries():
 def cases_for(numerals, carriers):
     def gen():
         for c, t, kind, f, unit, epi in table_entries():
-            for numeral_kind in numerals:
+            shared = sorted({ch for ch in f if ch in '123456789'})
+            for numeral_kind in list(numerals) + ['shared:' + d for d in shared]:
                 for carrier in carriers:
                     yield {'culture': c, 'type': t, 'kind': kind, 'spelling': f, 'unit': unit, 'numeral': numeral_kind, 'carrier': carrier,
                            'ep': epi}
@@ -120,7 +121,7 @@ def cases_for(numerals, carriers):
 
 def build_query(case):
     c = case['culture']
-    num = '5' if case['numeral'] == 'int' else DECIMAL[c]
+    num = '5' if case['numeral'] == 'int' else case['numeral'][7:] if case['numeral'].startswith('shared:') else DECIMAL[c]
     cjk = c in ('zh-cn', 'ja-jp')
     f = case['spelling']
     sep = '' if (cjk and not f.isascii()) else ' '
